@@ -204,5 +204,47 @@ PROPS["C09"] = {
     "shrink": False,
 }
 
+_CODEC_TB = [KERNEL, AXIOMS, TIE, HARNESS,
+             "extractor layouts (go/ast): (offset, width, struct field) tables of the Parse/Encode pairs of 12 fixed-layout types, regenerated into lean/JT/Gen/Layouts.lean on every run",
+             "Go-side oracles written by the harness (harness/internal/props/codec_*.go): registry of 47 decoders, in-domain value generators, reflect-based structural comparison",
+             "modelled rather than verified: Go slices as value lists with an explicit out-of-range outcome; BCD time strings, GBK text (golang.org/x/text) and reflection-based TerminalParamDetails.encode have no Lean model"]
+
+PROPS["C03"] = {
+    "id": "C03",
+    "lean_modules": ["JT.Props.C03"],
+    "extractors": ["layouts", "bittables", "addlen"],
+    "functional_ops": ["tot"],
+    "rule": ("for each of 47 decoders (35 message types x header version x active-safety dialect where it matters, 5 vendor extension parsers stand-alone and plugged into 0x0200, jt808 and jt1078 frame decoders): valid bodies from the C07 value generators, "
+             "every count/length byte perturbed (0, 1, ff, +-1) at the first ~40 offsets, truncation at every offset, extension by 1..3 bytes, splices of two valid bodies, random bodies; every (additional-information id, length) and (terminal-parameter id, length) pair; "
+             "each case decoded four ways on the Go side: fresh receiver + exact-capacity buffer, spare capacity poisoned with 00 and with ff, receiver that already parsed 0..3 other bodies (2 s watchdog); String() of every successful parse. non-trivial = class label (type:outcome[:reused])."),
+    "technique": "Lean 4 proof of bounds safety for the modelled decoders (explicit out-of-range outcome; tables regenerated by go/ast) + four-way differential execution of all decoders on the Go side",
+    "level_text": ("Machine-checked Lean 4 theorems, for every byte string: the twelve fixed-layout Parse methods (field tables regenerated from the source, tiling obligation checked by the kernel) never index outside the body and accept exactly the bodies of the layout's length; "
+                   "the location decoder (0x0200, items of 0x0704) with all additional-information item decoders never indexes past its data (admissible-length table regenerated from the source); the frame decoder returns a message or an error. "
+                   "PARTIAL: the remaining decoders (variable-width strings, terminal parameters, 0x0100/0x0102/0x9208 ..., vendor extensions) have no Lean model; for ALL 47 decoders the Go side decides the property by differential execution on every run: "
+                   "no panic, no hang, same outcome and same value with and without spare capacity (two poisons) and with a reused receiver, String() total. Modelled decoders are additionally compared outcome-by-outcome with the Lean model."),
+    "level_note": "Trusted: Lean kernel; extractors; the Go-side four-way oracle and its generators; memory behind a slice and receiver state are not expressible in the value model (decided by execution only). Open finding F03 (extension 0x66) is excluded by signature.",
+    "trusted_base": _CODEC_TB,
+    "assumptions": ["decoders without a Lean model are decided by the Go-side oracle only (sampled)", "String() totality is observed, not proved"],
+    "shrink": True,
+}
+
+PROPS["C07"] = {
+    "id": "C07",
+    "lean_modules": ["JT.Props.C07"],
+    "extractors": ["layouts"],
+    "functional_ops": ["rt"],
+    "rule": ("for each of the ~33 two-way message types x protocol version (2011/2013/2019 where layouts differ) x active-safety dialect: in-domain values generated as Go structs (fixed-width strings without NUL, BCD times, GBK-encodable text incl. Chinese, count/length fields consistent, "
+             "list lengths 0..max, every terminal-parameter id alone and in groups, zero-length strings), encoded with the library; oracle: Parse(body) succeeds, Encode gives the identical bytes, re-parse equals, value equals the generated one field by field; helper round trips (Bcd2Dec, Time2BCD/BCD2Time, GBK, String2FillingBytes). "
+             "non-trivial = every case (each is a distinct in-domain value)."),
+    "technique": "Lean 4 proof of both round-trip directions for fixed layouts (tables regenerated by go/ast), big-endian numbers of any width and counted-list bodies + differential correspondence + Go-side value round-trip oracle for all two-way types",
+    "level_text": ("Machine-checked Lean 4 theorems: for the twelve fixed-layout types (offset/width/field tables regenerated from the Go Parse AND Encode methods, equality and tiling checked by the kernel on every run) Encode(Parse b) = b on every accepted body and Parse(Encode v) = v for every value; "
+                   "numbers of any width survive PutUint/Uint and every w-byte string is the encoding of its number; 0x8003 and 0x9212 round-trip at struct level (every range at its own 8-byte position). "
+                   "PARTIAL: the other two-way types (strings, GBK, parameters, 0x0100, 0x0102, 0x9208, 0x1210 ...) have no Lean model and are decided by the Go-side oracle on generated in-domain values on every run; modelled types are also compared byte for byte with the model."),
+    "level_note": "Trusted: Lean kernel; extractor; Go-side generators of in-domain values and reflect-based comparison; GBK conversion (golang.org/x/text) and BCD time strings have no Lean model. Open finding F13 (parameters 0x18/0x19/0x21) is excluded by signature.",
+    "trusted_base": _CODEC_TB,
+    "assumptions": ["'in-domain' is what the harness generators produce (documented per type in codec_gen.go)", "types without a Lean model are decided by the Go-side oracle only (sampled)"],
+    "shrink": False,
+}
+
 # properties that are not claimed, with the reason (anything not listed and not in PROPS gets a generic "not built yet")
 NOT_APPLICABLE = {}
